@@ -147,6 +147,12 @@ def truth_hook(env):
     from .absint import Builtin, BoundMethod, ExtRef
 
     def hook(ev, f, args, kw, node):
+        try:
+            return _hook(ev, f, args, kw, node)
+        except Unmodelled:
+            return NotImplemented  # not an expression over the representative arrays: the interpreter treats it as unknown
+
+    def _hook(ev, f, args, kw, node):
         if isinstance(f, ExtRef) and f.path in ("numpy.all", "numpy.any", "numpy.alltrue", "numpy.sometrue") and len(args) == 1 and not kw and isinstance(args[0], Obj):
             r = value(args[0], env)
             return (all if f.path in ("numpy.all", "numpy.alltrue") else any)(r if isinstance(r, list) else [r])
